@@ -37,7 +37,7 @@ def c04(cx):
 @prop("C06", "LEA rules R-CHANNEL (constant channel/type sets of every emission satisfy the channel policy of the "
              "property; ExpectSymbol pairs checked at their constructors) and R-ADVANCE-EVIDENCE.")
 def c06(cx):
-    lea_glue.apply(cx, ["R-CHANNEL", "R-ADVANCE-EVIDENCE"])
+    lea_glue.apply(cx, ["R-CHANNEL", "R-ADVANCE-EVIDENCE", "R-MARK-WS", "R-DELIM-SHAPE"])
 
 
 @prop("C09", "LEA: R-CKPT (checkpoint typestate on every path and through every live-checkpoint region: no "
@@ -45,6 +45,33 @@ def c06(cx):
              "stale rollback target survives; R-SPEC-PURITY and R-ERR-PAIR are listed in the evidence when built.")
 def c09(cx):
     lea_glue.apply(cx, ["R-CKPT", "R-ERR-PAIR", "R-SPEC-PURITY"])
+
+
+@prop("C07", "LEA rule R-SECTION (the first literal section of a token is anchored at the token start or right after "
+             "its opening quote on every call path; a section end computed as `current offset - k` directly follows the "
+             "consumption of the closing quote) plus the structural rules R-HEX-SINK / R-RESTORE when built. Decides "
+             "where sections begin and end, not the unquoted content.")
+def c07(cx):
+    lea_glue.apply(cx, ["R-SECTION"])
+
+
+@prop("C10", "LEA rules R-RETYPE-GUARD (a token is retyped through the same look-behind accessor that guarded it) and "
+             "R-EXPECT-TABLE clauses LPAREN-FIRST / PARENS-BALANCED for every argument-taking built-in keyword.")
+def c10(cx):
+    lea_glue.apply(cx, ["R-RETYPE-GUARD", "R-EXPECT-TABLE"])
+
+
+@prop("C13", "LEA rule R-NESTING-FLUSH: every exit of a parenthesis-counting argument scanner pops the mode, stores the "
+             "local count into it, or provably has count 0.")
+def c13(cx):
+    lea_glue.apply(cx, ["R-NESTING-FLUSH"])
+
+
+@prop("C14", "LEA rule R-EXPECT-TABLE: for every keyword handled by dispatch_macro_call_or_stat the pre-loaded mode "
+             "sequence satisfies the delimiter clauses of the property ('(' first, ',' after the first %scan/%substr "
+             "argument, '=' after the %let name, '/' after the %copy name, ';' last) and R-ERR-PAIR when built.")
+def c14(cx):
+    lea_glue.apply(cx, ["R-EXPECT-TABLE"])
 
 
 def run(cx):
